@@ -33,9 +33,20 @@ type retainer struct {
 	w    *W
 	held []*held
 	tick int
+	n    int
 }
 
 func (r *retainer) keep(m *mangos.Message, from string, keepFor int) {
+	r.n++
+	if r.n%3 == 1 {
+		// the application works on its message in place (it is exclusively
+		// the application's): nobody else's copy of the same publication
+		// may notice
+		for i := range m.Body {
+			m.Body[i] ^= 0x20
+		}
+		r.w.Probe("received-message-modified-in-place")
+	}
 	r.held = append(r.held, &held{m: m, body: append([]byte(nil), m.Body...), header: append([]byte(nil), m.Header...), from: from, freeAt: r.tick + keepFor})
 }
 
